@@ -12,7 +12,7 @@ from typing import Any
 
 from ..ats import show_label
 from ..core import Ctx, Evidence, Finding, witness_of
-from ..model import AnalysisError
+from ..model import AnalysisError, loc
 
 REJECTIONS = {"InvalidPduDirection", "InvalidSourceId", "InvalidDestinationId", "InvalidTransactionSeqNum",
               "InvalidPduForSourceHandler", "InvalidPduForDestHandler", "PduIgnoredForSource", "PduIgnoredForDest",
@@ -159,6 +159,26 @@ def check(ctx: Ctx, ev: Evidence) -> list[Finding]:
     # R4
     ev.rule("C10-R4", "after every public call the ready-PDU counter equals the number of queued PDUs", 2)
     out += queue_counter_coherence(lambda w: ctx.ats(w), ev)
+    # R5 (syntax tree): whoever empties the send queue also zeroes the ready counter (the reset paths are not part of the ATS)
+    ev.rule("C10-R5", "a function that clears or replaces the send queue also sets the ready-PDU counter to 0", 2)
+    import ast as _ast
+    for which, cls in (("source", "cfdppy.handler.source.SourceHandler"), ("dest", "cfdppy.handler.dest.DestHandler")):
+        n_clear = 0
+        for fi in ctx.prog.functions.values():
+            if fi.cls != cls or fi.name == "__init__":
+                continue
+            clears = [n for n in _ast.walk(fi.node) if (isinstance(n, _ast.Call) and isinstance(n.func, _ast.Attribute) and n.func.attr == "clear" and _ast.unparse(n.func.value).endswith("_pdus_to_be_sent"))
+                      or (isinstance(n, _ast.Assign) and any(_ast.unparse(t).endswith("_pdus_to_be_sent") for t in n.targets))]
+            if not clears:
+                continue
+            n_clear += 1
+            zero = any(isinstance(n, _ast.Assign) and any(_ast.unparse(t).endswith("_num_packets_ready") for t in n.targets) and isinstance(n.value, _ast.Constant) and n.value.value == 0 for n in _ast.walk(fi.node))
+            ev.inst("C10-R5", f"{which} handler | {fi.name} empties the send queue and zeroes the counter: {zero}", "ok" if zero else "violation", loc(fi, clears[0]))
+            if not zero:
+                out.append(Finding("C10-R5", f"{which} handler | send queue emptied without zeroing the ready counter",
+                                   f"{fi.name} empties the send queue but leaves the ready-PDU counter: afterwards packets_ready/num_packets_ready claim PDUs that get_next_packet() cannot deliver", loc(fi, clears[0])))
+        if n_clear == 0:
+            ev.inst("C10-R5", f"{which} handler | no function empties the send queue", "ok")
     ev.extra["explanation"] = ("every public call (put_request, state_machine with no packet and with each of the 9 PDU kinds, cancel_request, get_next_packet drain, "
                                "public properties) interpreted abstractly from every reachable abstract state of both handlers; every exception edge classified")
     ev.assume("user callbacks, fault-handler callbacks and providers neither raise nor re-enter the handler")
